@@ -8,6 +8,8 @@ CONSTANTS
   AllowCancel = TRUE
   AllowSpurious = TRUE
   FileLayer = FALSE
+  SilentRelease = FALSE
+  ForgetsHandle = FALSE
   MaxLen = 8
 SPECIFICATION GSpec
 INVARIANTS Emit
